@@ -60,7 +60,10 @@ def run(ctx):
                 "the same soft-evidence variable with two likelihoods, MAP, do-queries) to one engine; each history is replayed on shared VE / BP / "
                 "CausalInference engines under concretisations {str, int, tuple variable names} x state-name kinds x insertion orders x hash seeds x "
                 "{numpy, torch}. distinct = (instance, history); every history is non-trivial (3 questions).")
-    ctx.assumptions += ["other checks contribute frame checks of their own calls (C08 graph unchanged, C11 start_dag, C13 do(), C04 operands)",
+    ctx.assumptions += ["the purity clause for scoring / estimation / structure search / export / conversion calls is checked inside the checks that make those calls: "
+                        "C02 (model after calibrate + queries), C04 (operands), C06 (data, prior arrays), C08 (graph), C09 (model after export), "
+                        "C10 (data after scoring), C11 (data, start_dag, edge lists), C13 (do()), C14 (source model of every conversion), "
+                        "C19 (data), C20 (data, Gaussian operands); violations there are reported under those properties",
                         "torch answers compared at 1e-6 (tensors are built through float32)"]
     insts = make_instances(ctx)
     f = os.path.join(ctx.work, "inst_c16.json")
